@@ -60,6 +60,8 @@ def plan(tier, seed):
         specs.append({"part": "interrupted_report", "seed": seed, "i": j})
     for j in range(300 if tier == "quick" else 3000):
         specs.append({"part": "deferred", "seed": seed, "i": j})
+    for j in range(12 if tier == "quick" else 120):
+        specs.append({"part": "globaltype", "seed": seed, "i": j})
     return specs
 
 
@@ -450,6 +452,52 @@ def part_deferred(spec, res):
         res["violations"].append({"msg": problems[0], "mech": None, "detail": {"label": "deferred", "mode": mode, "mask": desc, "problems": problems[:6]}})
 
 
+def part_globaltype(spec, res):
+    """Global fields may have any name - also message_type. A destination that keeps failing gets each message and the one report
+    about its failure, and no more (it recovers after a bounded number of calls so that an unbounded chain of reports stays finite here)."""
+    from eliot import add_global_fields
+    rng = random.Random("%s:C08:gt:%d" % (spec["seed"], spec["i"]))
+    name = ["message_type", "message_type", "action_type", "reason", "exception", "message"][spec["i"] % 6]
+    add_global_fields(**{name: rng.choice(["app:global", "eliot:destination_failure:not", 7])})
+    nmsg = rng.randint(1, 4)
+    budget = [rng.randint(8, 14)]
+    calls, got = [0], []
+
+    def bad(m):
+        calls[0] += 1
+        if budget[0] > 0:
+            budget[0] -= 1
+            raise excs.DestFault("always failing (call %d)" % calls[0])
+
+    def ref(m):
+        got.append(dict(m))
+    dests = [bad, ref] if spec["i"] % 2 else [ref, bad]
+    add_destinations(*dests)
+    problems = []
+    try:
+        for n in range(nmsg):
+            log_message(message_type="gt:m", n=n)
+    except BaseException as e:
+        problems.append("logging raised %r" % (e,))
+    finally:
+        for d in dests:
+            remove_destination(d)
+    failed_calls = min(calls[0], calls[0] - max(0, 0))  # (all calls while the budget lasted failed)
+    originals = [m for m in got if m.get("n") is not None and "message" not in m or (name == "message" and m.get("n") is not None and "reason" not in m)]
+    if len(got) > 2 * nmsg:
+        problems.append("with a global field named %s set, %d messages were logged and one destination kept failing: the healthy destination was offered %d messages "
+                        "(at most one report per message is due: failures while delivering a report are not reported), the failing one was called %d times" % (
+                            name, nmsg, len(got), calls[0]))
+    if len(got) < nmsg:
+        problems.append("the healthy destination was offered %d messages, %d were logged" % (len(got), nmsg))
+    res["evals"] += 1
+    c = res["counters"]
+    c["global_field_named_like_eliot_fields_runs"] = c.get("global_field_named_like_eliot_fields_runs", 0) + 1
+    res["nontrivial"].append(h(["gt", name, nmsg, spec["i"] % 2]))
+    if problems:
+        res["violations"].append({"msg": problems[0], "mech": None, "detail": {"label": "globaltype", "global_field": name, "problems": problems[:4]}})
+
+
 class Payload(object):
     def __init__(self, v):
         self.v = v
@@ -686,6 +734,9 @@ def run_case(spec):
         return res
     if spec["part"] == "deferred":
         part_deferred(spec, res)
+        return res
+    if spec["part"] == "globaltype":
+        part_globaltype(spec, res)
         return res
     if spec["part"] == "random":
         for i in range(spec["lo"], spec["hi"]):
